@@ -406,13 +406,67 @@ Fixpoint ok_batch_from (w : btw) (tr : list (bin * list bout * (list Z * list Z)
   end.
 
 (* ------------------------------------------------------------------ *)
+(** * server/concurrency.py: FixedConcurrency, DynamicConcurrency, WeightedConcurrency *)
+
+Inductive cmodel :=
+| CFixed (mx act : Z)
+| CDyn (cur mn : Z) (mx : option Z) (act : Z)
+| CWeighted (total used : Z).
+
+Inductive cop :=
+| CAcquire (w : Z)
+| CRelease (w : Z)
+| CHasCap (w : Z)
+| CSetLimit (n : Z).      (* DynamicConcurrency.set_limit; scale_up/down are set_limit (current +- amount) *)
+
+Definition cm_active (m : cmodel) : Z :=
+  match m with CFixed _ a => a | CDyn _ _ _ a => a | CWeighted _ u => u end.
+Definition cm_limit (m : cmodel) : Z :=
+  match m with CFixed mx _ => mx | CDyn cur _ _ _ => cur | CWeighted t _ => t end.
+
+(** Result: 1 = True, 0 = False / None, 2 = ValueError (weight < 1 in WeightedConcurrency). *)
+Definition cm_step (m : cmodel) (o : cop) : cmodel * Z :=
+  match m, o with
+  | CFixed mx a, CAcquire _ => if mx <=? a then (m, 0) else (CFixed mx (a + 1), 1)
+  | CFixed mx a, CRelease _ => (CFixed mx (Z.max 0 (a - 1)), 0)
+  | CFixed mx a, CHasCap _ => (m, if a <? mx then 1 else 0)
+  | CFixed _ _, CSetLimit _ => (m, 0)
+  | CDyn cur mn mx a, CAcquire _ => if cur <=? a then (m, 0) else (CDyn cur mn mx (a + 1), 1)
+  | CDyn cur mn mx a, CRelease _ => (CDyn cur mn mx (Z.max 0 (a - 1)), 0)
+  | CDyn cur mn mx a, CHasCap _ => (m, if a <? cur then 1 else 0)
+  | CDyn cur mn mx a, CSetLimit n =>
+      let c1 := Z.max mn n in
+      let c2 := match mx with Some x => Z.min x c1 | None => c1 end in
+      (CDyn c2 mn mx a, 0)
+  | CWeighted t u, CAcquire w =>
+      if w <? 1 then (m, 2) else if t <? u + w then (m, 0) else (CWeighted t (u + w), 1)
+  | CWeighted t u, CRelease w =>
+      if w <? 1 then (m, 2) else (CWeighted t (Z.max 0 (u - w)), 0)
+  | CWeighted t u, CHasCap w => (m, if u + w <=? t then 1 else 0)
+  | CWeighted _ _, CSetLimit _ => (m, 0)
+  end.
+
+Fixpoint cm_run (m : cmodel) (ops : list cop) : cmodel :=
+  match ops with [] => m | o :: r => cm_run (fst (cm_step m o)) r end.
+
+(** per operation: result, active, limit *)
+Fixpoint ok_conc_from (m : cmodel) (tr : list (cop * (Z * Z * Z))) : bool :=
+  match tr with
+  | [] => true
+  | (o, (res, a, l)) :: r =>
+      let '(m', res') := cm_step m o in
+      (res =? res') && (a =? cm_active m') && (l =? cm_limit m') && ok_conc_from m' r
+  end.
+
+(* ------------------------------------------------------------------ *)
 (** * One case type for the correspondence family *)
 
 Inductive icase :=
 | IPooled (size cap : Z) (tr : list (pclabel * list pcev * (list Z * list Z)))
 | IGate (cap : Z) (opened : bool) (tr : list (gin * list Z * (list Z * list Z)))
 | IConv (cap : Z) (tr : list (cvin * list (Z + Z) * list Z))
-| IBatch (size : Z) (timeout_on : bool) (tr : list (bin * list bout * (list Z * list Z))).
+| IBatch (size : Z) (timeout_on : bool) (tr : list (bin * list bout * (list Z * list Z)))
+| IConc (m : cmodel) (tr : list (cop * (Z * Z * Z))).
 
 Definition ok_ind (c : icase) : bool :=
   match c with
@@ -420,4 +474,5 @@ Definition ok_ind (c : icase) : bool :=
   | IGate cap opened tr => ok_gate_from (g0 cap opened) tr
   | IConv cap tr => ok_conv_from (cvw0 cap) tr
   | IBatch size ton tr => ok_batch_from (bw0 size ton) tr
+  | IConc m tr => ok_conc_from m tr
   end.
